@@ -1,7 +1,7 @@
 SPECIFICATION Spec
 CONSTANTS
-  PDiv = 1
-  Keys = {1,2,3,4,5,6,7}
+  PDiv = 2
+  Keys = {1,2,3,4,5}
   Prios = {1,2,3}
   Inits <- InitsPQ
   UpFix = TRUE
